@@ -358,7 +358,7 @@ class Tensor:
         return self.to(dtype=float64)
 
     def is_contiguous(self):
-        return bool(self.a.flags['C_CONTIGUOUS'])
+        return True if self.a.flags['C_CONTIGUOUS'] else False
 
     def contiguous(self):
         if self.a.flags['C_CONTIGUOUS']:
